@@ -230,7 +230,12 @@ def differential(runs, props, prog, inputs, out, chunks, modulus, key, tags, vki
             runs[p].count("twin_runs")
             runs[p].count("not_judged:" + masked[0].split(":")[0])
         return
-    ref.flags = [f for f in ref.flags]
+    if any(hasattr(v, "num") and abs(v.num()) >= modulus // 4 for k, v in ref.ns.items() if k[0] in "vxg" and k[1:].isdigit()):
+        # a value left (-p/4, p/4): the library legitimately continues with another representative (DESIGN 6.2, 6.10)
+        for p in props & {"C05", "C14"}:
+            runs[p].count("twin_runs")
+            runs[p].count("not_judged:value-beyond-p/4")
+        return
     for p in props & {"C05", "C14"}:
         runs[p].count("twin_runs")
     if ref_other:
